@@ -224,7 +224,9 @@ func (c *client) PushBlobChunkedResume(ctx context.Context, repo string, id stri
 		}
 		resp, err := c.do(req, http.StatusNoContent)
 		if err != nil {
-			return nil, fmt.Errorf("cannot recover chunk offset: %v", err)
+			// Return the registry's error as it is, so that it keeps its
+			// code and status (and gains no prefix at every proxy hop).
+			return nil, err
 		}
 		location, err = locationFromResponse(resp)
 		if err != nil {
